@@ -263,14 +263,14 @@ def _mem_ptr(I, p):
 def _loadu(I, fr, callee, args, dest, argops, line):
     name = callee['d'].rsplit('::', 1)[1]
     obj, off = _mem_ptr(I, args[0])
-    I.mem_events.append(('load', fr.body['d'], line, obj.id, off, 16, 16 if name == '_mm_load_ps' else 1, tuple(I.pathcond), name))
+    I.mem_events.append(('load', fr.body['d'], line, obj.id, off, 16, 16 if name == '_mm_load_ps' else 1, dict(tm.ASSUME_LB), name))
     return vec([I.read(obj, off + 4 * i, 4, None) for i in range(4)], 4)
 
 
 @x86('_mm_load_ss')
 def _load_ss(I, fr, callee, args, dest, argops, line):
     obj, off = _mem_ptr(I, args[0])
-    I.mem_events.append(('load', fr.body['d'], line, obj.id, off, 4, 1, tuple(I.pathcond), '_mm_load_ss'))
+    I.mem_events.append(('load', fr.body['d'], line, obj.id, off, 4, 1, dict(tm.ASSUME_LB), '_mm_load_ss'))
     z = const(0, 4)
     return vec([I.read(obj, off, 4, None), z, z, z], 4)
 
@@ -278,7 +278,7 @@ def _load_ss(I, fr, callee, args, dest, argops, line):
 @x86('_mm_load1_ps', '_mm_load_ps1')
 def _load1(I, fr, callee, args, dest, argops, line):
     obj, off = _mem_ptr(I, args[0])
-    I.mem_events.append(('load', fr.body['d'], line, obj.id, off, 4, 1, tuple(I.pathcond), '_mm_load1_ps'))
+    I.mem_events.append(('load', fr.body['d'], line, obj.id, off, 4, 1, dict(tm.ASSUME_LB), '_mm_load1_ps'))
     v = I.read(obj, off, 4, None)
     return vec([v] * 4, 4)
 
@@ -287,7 +287,7 @@ def _load1(I, fr, callee, args, dest, argops, line):
 def _storeu(I, fr, callee, args, dest, argops, line):
     name = callee['d'].rsplit('::', 1)[1]
     obj, off = _mem_ptr(I, args[0])
-    I.mem_events.append(('store', fr.body['d'], line, obj.id, off, 16, 16 if name == '_mm_store_ps' else 1, tuple(I.pathcond), name))
+    I.mem_events.append(('store', fr.body['d'], line, obj.id, off, 16, 16 if name == '_mm_store_ps' else 1, dict(tm.ASSUME_LB), name))
     ls = lanes(I, args[1], 4, 4)
     for i in range(4):
         I.write(obj, off + 4 * i, 4, ls[i])
@@ -297,7 +297,7 @@ def _storeu(I, fr, callee, args, dest, argops, line):
 @x86('_mm_store_ss')
 def _store_ss(I, fr, callee, args, dest, argops, line):
     obj, off = _mem_ptr(I, args[0])
-    I.mem_events.append(('store', fr.body['d'], line, obj.id, off, 4, 1, tuple(I.pathcond), '_mm_store_ss'))
+    I.mem_events.append(('store', fr.body['d'], line, obj.id, off, 4, 1, dict(tm.ASSUME_LB), '_mm_store_ss'))
     I.write(obj, off, 4, lanes(I, args[1], 4, 4)[0])
     return Agg(0)
 
@@ -588,7 +588,7 @@ def effect_leaf(returns_arg0=False):
             deps |= I.typed_deps(a, ty)
         for c in I.pathcond:
             deps |= c.deps
-        I.effects.append((d, tuple(describe_arg(I, fr, a, ty) for a, ty in zip(args, tys)), tuple(I.pathcond), fr.body['d']))
+        I.effects.append((d, tuple(describe_arg(I, fr, a, ty) for a, ty in zip(args, tys)), dict(tm.ASSUME_LB), fr.body['d']))
         I.opaque_calls.append((d, frozenset(deps), fr.body['d'], line))
         for a, ty in zip(args, tys):
             I.typed_havoc(a, ty, deps)
